@@ -127,6 +127,14 @@ class HostCase:
         self.tok = 0
         self.fault_mode = None
         self.listener_dead = False
+        # in a third of the cases the backend is unreachable when the
+        # listener starts: the listen iterator fails (once or twice) before it
+        # has delivered a single message
+        if rng.random() < 0.33:
+            self.mgr.fail_first_listens = rng.choice([1, 2])
+            self.history.append(['first_listen_fails',
+                                 self.mgr.fail_first_listens])
+            ctx.count('listen_failures_before_first_message')
 
     def witness(self, extra=None):
         w = {'case_index': self.index, 'kind': self.kind,
@@ -208,6 +216,19 @@ class HostCase:
         self.cb_id = pk[0]['id'] if pk else None
         self.cb_sid = sid
 
+    def room_view(self):
+        r = self.r
+        out = {}
+        for (T, ns), lst in sorted(r.issued.items()):
+            sid = lst[-1]
+            try:
+                out['%s%s' % (T, ns)] = sorted(
+                    str(x) if x != sid else '<own>'
+                    for x in r.sio.rooms(sid, namespace=ns))
+            except Exception as e:
+                out['%s%s' % (T, ns)] = 'exc:' + type(e).__name__
+        return out
+
     def callbacks_fired(self, ev0):
         return [e for e in self.r.events[ev0:] if e[0] == 'callback']
 
@@ -227,6 +248,7 @@ class HostCase:
         ev0 = len(r.events)
         for t in r.T.values():
             t.drain()
+        rooms0 = self.room_view()
         # fault injection around this message
         fault = rng.random() < 0.25
         restore = []
@@ -286,6 +308,12 @@ class HostCase:
                 if not r.sio.manager.is_connected(lst[-1], ns):
                     return self.fail('own-host echo (%s) disconnected a '
                                      'local client' % cls)
+            rooms1 = self.room_view()
+            if rooms1 != rooms0:
+                return self.fail('own-host echo (%s) changed the room '
+                                 'membership of local clients' % cls,
+                                 {'rooms_before': rooms0,
+                                  'rooms_after': rooms1})
             ctx.count('echoes_checked')
         # a disconnect from another host may legitimately have removed a
         # local client; keep our view in sync
@@ -681,6 +709,7 @@ def run(ctx):
     ctx.require('echoes_checked', 10)
     ctx.require('own_callback_completions', 5)
     ctx.require('raising_callbacks_exception', 5)
+    ctx.require('listen_failures_before_first_message', 5)
     ctx.require('redis_sentinels_checked', 30)
     ctx.require('redis_connection_drops', 5)
     ctx.require('raising_callbacks_cancelled', 5)
